@@ -26,12 +26,13 @@ EXPLANATION = (
 ASSUMPTIONS = ["hooks do not raise", "inline executor", "concurrent messages are checked per message in C02/C07 harnesses; here one message per run"]
 TRUSTED = ["CPython asyncio (real, virtual clock)", "vt.sym explorer", "recording middlewares"]
 BOUNDS = {"middlewares": "0..2 quick (3 kinds per hook), 3 thorough (2 kinds per hook)", "messages": 1}
-REQUIRED_COVERS = ["exec", "send", "kick_failed", "async_hook", "sync_hook", "no_hook", "replace", "post_save_skipped", "on_error_ran"]
+REQUIRED_COVERS = ["future_hook", "exec", "send", "kick_failed", "async_hook", "sync_hook", "no_hook", "replace", "post_save_skipped", "on_error_ran"]
 
 EXEC_HOOKS = ("pre_execute", "on_error", "post_execute", "post_save")
 SEND_HOOKS = ("pre_send", "post_send")
 KINDS3 = (None, "sync", "async")
 KINDS2 = (None, "async")
+KINDSF = ("sync", "future")  # hooks that return an awaitable which is not a coroutine
 
 
 def cases(tier: str) -> List[Any]:
@@ -49,11 +50,14 @@ def cases(tier: str) -> List[Any]:
     for n in (0, 1, 2) + ((3,) if tier == "thorough" else ()):
         for kf in (False, True):
             out.append({"side": "send", "n": n, "kick_fail": kf, "kinds": 3 if n < 3 else 2})
+    for outcome in ("return", "raise_exc"):
+        out.append({"side": "exec", "n": 2, "outcome0": outcome, "backend_fail0": False, "kinds": "f"})
+    out.append({"side": "send", "n": 2, "kick_fail": False, "kinds": "f"})
     return out
 
 
 def _vectors(c: sym.Ctx, case: Dict[str, Any], hooks: Any) -> List[Dict[str, str]]:
-    kinds = KINDS3 if case["kinds"] == 3 else KINDS2
+    kinds = KINDS3 if case["kinds"] == 3 else (KINDSF if case["kinds"] == "f" else KINDS2)
     mws: List[Dict[str, str]] = []
     for k in range(case["n"]):
         vec = case["v0"] if (k == 0 and "v0" in case) else [c.choose(len(kinds), f"mw{k}.{h}") for h in hooks]
@@ -91,7 +95,7 @@ def exec_side(c: sym.Ctx, case: Dict[str, Any]) -> None:
     got = [(e[1], e[2]) for e in hooks]
     for m in mws:
         for kind in m.values():
-            c.cover("async_hook" if kind == "async" else "sync_hook")
+            c.cover("async_hook" if kind == "async" else ("future_hook" if kind == "future" else "sync_hook"))
     if not want:
         c.cover("no_hook")
     if replace:
